@@ -2151,3 +2151,18 @@ CASES += [
                 }
                 None"""),
 ]
+
+CASES += [
+    dict(name="vt-balanced-left-half-twice", file="src/repr/dtree.rs", rule="VT", props=["C14"], expect="DTree::balanced:slice-partition",
+         old="""            let subr = DTree::balanced(r);""",
+         new="""            let _ = r;
+            let subr = DTree::balanced(l);"""),
+    dict(name="vt-balanced-skips-middle", file="src/repr/dtree.rs", rule="VT", props=["C14"], expect="DTree::balanced:slice-partition",
+         old="""            let (l, r) = trees.split_at(trees.len() / 2);""",
+         new="""            let mid = trees.len() / 2;
+            let (l, r) = (&trees[..mid], &trees[mid + 1..]);"""),
+    dict(name="vt-balanced-range-halves-ok", file="src/repr/dtree.rs", rule="VT", props=["C14"], expect=None,
+         old="""            let (l, r) = trees.split_at(trees.len() / 2);""",
+         new="""            let mid = trees.len() >> 1;
+            let (l, r) = (&trees[..mid], &trees[mid..]);"""),
+]
